@@ -142,11 +142,13 @@ def sub_orders(acc, shard, nshards, tier):
     idx = 0
     H = lambda lo, hi: [Hierarchy.get(a) for n in range(lo, hi + 1) for a in posets(n)]  # noqa
     if tier == "quick":
-        static = [("1pos,n<=3,L=3,prio", H(2, 3), ["x"], (0, 1), 3, 3, None), ("2pos,n=2,L=3", H(2, 2), ["xy"], (0,), 3, 3, 2)]
+        static = [("1pos,n<=3,L=3,prio", H(2, 3), ["x"], (0, 1), 3, 3, None), ("2pos,n=2,L=3", H(2, 2), ["xy"], (0,), 3, 3, 2),
+                  ("zero-argument calls,n<=2,L<=3", H(1, 2), ["x?", "x?y?"], (0, 1), 2, 3, None)]
         sp_sizes, bound4 = (2, 3), 2
     else:
         static = [("1pos,n<=4,L<=3,prio", H(2, 4), ["x"], (0, 1), 2, 3, None), ("1pos,n<=3,L=4", H(3, 3), ["x"], (0,), 4, 4, 2),
-                  ("2pos,n<=3,L=3", H(2, 3), ["xy"], (0,), 3, 3, 2)]
+                  ("2pos,n<=3,L=3", H(2, 3), ["xy"], (0,), 3, 3, 2),
+                  ("zero-argument calls,n<=3,L<=3", H(1, 3), ["x?", "x?y?", "x*k?"], (0, 1), 2, 3, None)]
         sp_sizes, bound4 = (2, 3, 4), 2
     for name, hiers, shapes, prios, lo, hi, bound in static:
         for h in hiers:
@@ -159,6 +161,8 @@ def sub_orders(acc, shard, nshards, tier):
                 mspecs = spaces.mspecs_of(descs)
                 gen.Program(h.classes, mspecs)  # warm-up (normaliser tables)
                 for args_n, kw_n in calls:
+                    if kw_n:
+                        continue
                     args = tuple(h.instances[a] for a in args_n)
 
                     def run():
@@ -210,12 +214,12 @@ def sub_regorder(acc, shard, nshards, tier):
     H = lambda lo, hi: [Hierarchy.get(a) for n in range(lo, hi + 1) for a in posets(n)]  # noqa
     if tier == "quick":
         static = [("1pos,n<=4,L=3,prio", H(1, 4), ["x"], (0, 1), 3, 3), ("2pos,n<=3,L=3", H(2, 3), ["xy"], (0,), 3, 3),
-                  ("shapes,n<=1,L=3", H(1, 1), ["x", "xy", "xy?", "x*k", "x*k?"], (0,), 3, 3)]
+                  ("shapes,n<=1,L=3", H(1, 1), ["x", "xy", "xy?", "x*k", "x*k?", "x?"], (0,), 3, 3)]
         sp_sizes = (2, 3)
     else:
         static = [("1pos,n<=5,L=3,prio", H(1, 5), ["x"], (0, 1), 3, 3), ("1pos,n<=3,L=4,prio", H(1, 3), ["x"], (0, 1), 4, 4),
                   ("2pos,n<=3,L=3,prio", H(2, 3), ["xy"], (0, 1), 3, 3), ("2pos,n=4,L=3", H(4, 4), ["xy"], (0,), 3, 3),
-                  ("shapes,n<=2,L=3", H(1, 2), ["x", "xy", "xy?", "x*k", "x*k?"], (0,), 3, 3)]
+                  ("shapes,n<=2,L=3", H(1, 2), ["x", "xy", "xy?", "x*k", "x*k?", "x?"], (0,), 3, 3)]
         sp_sizes = (2, 3, 4)
     for name, hiers, shapes, prios, lo, hi in static:
         for h in hiers:
@@ -271,7 +275,7 @@ def sub_regorder(acc, shard, nshards, tier):
 def sub_irrelevant(acc, shard, nshards, tier):
     idx = 0
     H = lambda lo, hi: [Hierarchy.get(a) for n in range(lo, hi + 1) for a in posets(n)]  # noqa
-    S = ["x", "xy", "xy?", "x*k", "x*k?"]
+    S = ["x", "xy", "xy?", "x*k", "x*k?", "x?"]
     if tier == "quick":
         static = [("1pos,n<=4,L<=2,prio", H(2, 4), ["x"], (0, 1), 1, 2, None), ("2pos,n<=3,L<=2", H(2, 3), ["xy"], (0,), 1, 2, None),
                   ("shapes,n<=1,L<=2", H(1, 1), S, (0,), 1, 2, None),
